@@ -8,6 +8,7 @@ repeated along chains of desired configurations.
 """
 import itertools
 import random
+import re
 from collections import OrderedDict as odict
 
 from vf.gen import rb as G
@@ -30,7 +31,7 @@ ASSUMPTIONS = [
     "Junos-like vendors (juniper, ribbon, nokia): flattened set/delete statements are segmented into rows by the rulebook (block rows have a fixed word count, no catch-alls, no %rewrite, no negated-form rules there); `set` creates missing blocks, `delete` inside a missing block is a no-op",
     "the RouterOS formatter is not simulated here",
 ]
-FLOORS = {"quick": {"patches_executed": 3000, "commands_executed": 5000, "removals_executed": 500, "second_diffs_empty": 3000, "flat_patches_executed": 800, "flat_commands_executed": 2000, "overlapping_rule_cases": 50, "undo_redo_block_cases": 50, "model_chain_patches_executed": 30, "ignore_changes_block_cases": 50, "ordered_rewrite_body_cases": 25},
+FLOORS = {"quick": {"patches_executed": 3000, "commands_executed": 5000, "removals_executed": 500, "second_diffs_empty": 3000, "flat_patches_executed": 800, "flat_commands_executed": 2000, "overlapping_rule_cases": 50, "undo_redo_block_cases": 50, "model_chain_patches_executed": 45, "ignore_changes_block_cases": 50, "ordered_rewrite_body_cases": 25, "rulebooks_with_an_ignore_case_rule_beside_case_sensitive_ones": 150},
           "thorough": {"patches_executed": 100000, "commands_executed": 200000, "removals_executed": 20000, "second_diffs_empty": 100000, "flat_patches_executed": 30000, "flat_commands_executed": 80000, "overlapping_rule_cases": 2000, "undo_redo_block_cases": 2000, "model_chain_patches_executed": 300, "ignore_changes_block_cases": 2000, "ordered_rewrite_body_cases": 1000}}
 BLOCK_VENDORS = ["huawei", "h3c", "optixtrans", "cisco", "nexus", "iosxr", "arista", "aruba", "b4com", "pc"]
 FLAT_VENDORS = {"juniper": {"set"}, "ribbon": {"set"}, "nokia": {"/configure"}}
@@ -247,6 +248,44 @@ def run_case(case, acc):
         rules = G.gen_rulebook(rng, depth=3, prefix=prefix, allow=FLAT_ALLOW + extra)
     else:
         rules = G.gen_rulebook(rng, depth=3, prefix=prefix, allow=G.DEFAULT_ALLOW + extra)
+    ic_words = set()
+    if case.get("mixcase"):
+        # one leaf rule per level may be %ignore_case (its own rows stay lower-case on both sides); the rows of its case-sensitive
+        # siblings carry upper-case letters, which the patch must reproduce exactly
+        crng = random.Random(case["seed"] ^ 0x1CA5E)
+
+        def mark(level):
+            leaves = [r for r in level if not r.children and not r.glob and not r.ignore and r.pat != "~" and not r.ordered and not r.rewrite and r.logic is None]
+            if len(level) >= 2 and leaves and crng.random() < 0.8:
+                r = crng.choice(leaves)
+                r.extra = (r.extra + " %ignore_case").strip()
+                pw = r.pat.split()
+                ic_words.add(pw[1] if pw[0] == prefix and len(pw) > 1 else pw[0])
+            for r in level:
+                if r.children and not r.glob:
+                    mark(r.children)
+        mark(rules)
+        if ic_words:
+            acc.count("rulebooks_with_an_ignore_case_rule_beside_case_sensitive_ones")
+
+    def mixcase(tree):
+        if not ic_words:
+            return tree
+        out = odict()
+        for row, ch in tree.items():
+            ws = row.split()
+            first = ws[1] if ws[0] == prefix and len(ws) > 1 else ws[0]
+            if first not in ic_words:
+                row = " ".join(w_.upper() if re.fullmatch(r"[kx]\d", w_) else w_ for w_ in ws)
+            out[row] = mixcase(ch)
+        return out
+    def lowcase(tree):
+        if not ic_words:
+            return tree
+        out = odict()
+        for row, ch in tree.items():
+            out[" ".join(w_.lower() if re.fullmatch(r"[KX]\d", w_) else w_ for w_ in row.split())] = lowcase(ch)
+        return out
     text = RB.render(rules)
     try:
         rb = compile_rb(text, vname)
@@ -259,7 +298,7 @@ def run_case(case, acc):
             host.children.append(RB.Rule("q1 *", ordered=True, children=[RB.Rule("~", glob=True, rewrite=True)]))
             text = RB.render(rules)
             rb = compile_rb(text, vname)
-    old = G.gen_tree(rng, rules)
+    old = mixcase(G.gen_tree(rng, rules))
     if G.has_feature(rules, FEATURES["overlap"]):
         acc.count("overlapping_rule_cases")
     if G.has_feature(rules, FEATURES["undo_redo_block"]):
@@ -273,9 +312,10 @@ def run_case(case, acc):
         if case.get("ordrw") and rng.random() < 0.4:
             new = reorder_only(rng, old)  # the same lines, ordered lists permuted, bodies untouched
         elif rng.random() < 0.65:
-            new = G.mutate_tree(rng, old, rules)
+            new = G.mutate_tree(rng, lowcase(old), rules)  # (keys are compared in the generator's own lower-case spelling)
         else:
             new = G.gen_tree(rng, rules)
+        new = mixcase(new)
         after = step(vname, rules, text, rb, old, new, acc, {"case": case, "step": i})
         if after is None:
             return
@@ -347,6 +387,14 @@ MODEL_CHAINS = [
     ("Huawei CE6870", "interface 10GE1/0/2\n trust dscp\n", "interface 10GE1/0/2\n trust 8021p\n description x\n"),
     ("Huawei Quidway S5300", "interface GE1/0/2\n trust 8021p\n", "interface GE1/0/2\n trust dscp\n"),
     ("Huawei", "interface GE1/0/3\n trust 8021p\n jumboframe enable 9000\n", "interface GE1/0/3\n trust dscp\n"),
+    # value changes of lines whose shipped rule replaces the line by removal + re-creation (undo_redo): the removal must come first
+    ("Huawei CE6870", "interface 10GE1/0/3\n mtu 9000\n description a\n", "interface 10GE1/0/3\n mtu 1500\n description a\n"),
+    ("Huawei NE40E-X8", "interface GE1/0/4\n mtu 9000\n ipv6 enable\n", "interface GE1/0/4\n mtu 4000\n ipv6 enable\n description b\n"),
+    ("Huawei Quidway S5700", "interface GE1/0/5\n eth-trunk 1\n", "interface GE1/0/5\n eth-trunk 2\n"),
+    ("Huawei CE6870", "ftp client source -i LoopBack0\nsnmp-agent protocol source-interface LoopBack0\n", "ftp client source -i LoopBack1\nsnmp-agent protocol source-interface LoopBack1\n"),
+    ("Huawei CE6870", "acl number 3000\n rule 5 permit ip\n rule 10 deny ip\n", "acl number 3000\n rule 5 deny ip\n rule 10 deny ip\n"),
+    ("Huawei", "ospf 1\n stub-router on-startup 100\n", "ospf 1\n stub-router on-startup 200\n"),
+    ("Arista DCS-7050", "ip prefix-list PL seq 10 permit 10.0.0.0/8\nip prefix-list PL seq 20 permit 12.0.0.0/8\n", "ip prefix-list PL seq 10 permit 11.0.0.0/8\nip prefix-list PL seq 20 permit 12.0.0.0/8\n"),
 ]
 
 
@@ -403,7 +451,9 @@ def run_model_chains(spec, acc):
     orders = list(itertools.permutations(range(len(MODEL_CHAINS)), 3))
     rng = random.Random("C01/models/%s" % spec["seed"])
     rng.shuffle(orders)
-    for order in orders[: (12 if spec["tier"] == "quick" else len(orders))]:
+    first = list(range(len(MODEL_CHAINS)))
+    rng.shuffle(first)  # every pair at least once (one long chain), then triples in sampled orders
+    for order in [tuple(first)] + orders[: (12 if spec["tier"] == "quick" else 400)]:
         for idx in order:
             model, ot, nt = MODEL_CHAINS[idx]
             hw = HardwareView(model, "")
@@ -463,6 +513,8 @@ def run_shard(spec, acc):
             case["urblocks"] = True
         if j % 4 == 2:
             case["ordrw"] = case["icblocks"] = True
+        if j % 4 == 0:
+            case["mixcase"] = True
         run_case(case, acc)
     flat = sorted(FLAT_VENDORS)
     for j in range((total // 3) // n):
